@@ -528,6 +528,12 @@ class World(object):
         # property describes: abandon it (DESIGN 3.4 F2/F3)
         if st.outcome != 'ok' and st.dest is not None and not st.expect_reject:
             fmt_in_flight = st.op['op'] in ('resize', 'sort_inplace', 'store_cont') or st.store is None
+            if st.op['op'] == 'resize' and self.performed_before_abort(st):
+                # the object's own callback raised from on_status_inaccuracy / on_value_change, i.e.
+                # AFTER the store: the conversion has been performed (the notification says so), the
+                # object holds the converted value in the new format and stays in play
+                fmt_in_flight = False
+                self.bump('aborted_after_store_kept')
             if self.strict_abandon or fmt_in_flight:
                 if self.slots[st.dest].alive:
                     self.kill(st.dest)
@@ -545,6 +551,13 @@ class World(object):
                     self.fresh_buffer(st.dest)
         self.log.append(self.log_entry(st))
         return st
+
+    @staticmethod
+    def performed_before_abort(st):
+        """True iff this step was aborted by ITS OWN destination's callback at a site that is
+        notified after the store (fault F3 at on_status_inaccuracy / on_value_change)."""
+        return (st.outcome == 'aborted' and not st.nested and
+                st.extra.get('f3_site') in ('on_status_inaccuracy', 'on_value_change'))
 
     def log_entry(self, st):
         touched = sorted(set([i for i in ([st.dest] if st.dest is not None else [])] + list(st.new)
@@ -1286,6 +1299,95 @@ class World(object):
             x = f(self.obj(a))
         k = self.finish_new(st, x, origin='npfunc')
         self.register_written(st)
+
+    OBSERVERS = ('str', 'repr', 'bin', 'bin_dot', 'hex', 'base_repr', 'get_val', 'astype_float', 'astype_int',
+                 'tolist', 'raw', 'uraw', 'get_status', 'get_status_str', 'info', 'len', 'bool', 'int', 'float',
+                 'eq_self', 'lt_const', 'ne_const', 'argmax', 'argmin', 'all', 'any', 'nonzero', 'item',
+                 'np_asarray', 'get_dtype', 'attrs', 'real_imag', 'iter')
+
+    def op_observe(self, st):
+        """A read-only use of an object: whatever it returns, it must not change anything."""
+        op = st.op
+        a = self.ref(op['slot'])
+        st.kind = 'observe'
+        st.pure = True
+        st.srcs = [a]
+        f = op['f']
+        if f not in self.OBSERVERS:
+            raise Skip('unknown observer')
+        yield
+        o = self.obj(a)
+        self.bump('observer_called')
+        arr = np.asarray(o.val).ndim > 0
+        if f == 'str':
+            str(o)
+        elif f == 'repr':
+            repr(o)
+        elif f == 'bin':
+            o.bin()
+        elif f == 'bin_dot':
+            o.bin(frac_dot=True)
+        elif f == 'hex':
+            o.hex()
+        elif f == 'base_repr':
+            o.base_repr(2)
+        elif f == 'get_val':
+            o.get_val()
+        elif f == 'astype_float':
+            o.astype(float)
+        elif f == 'astype_int':
+            o.astype(int)
+        elif f == 'tolist':
+            o.tolist()
+        elif f == 'raw':
+            o.raw()
+        elif f == 'uraw':
+            o.uraw()
+        elif f == 'get_status':
+            o.get_status()
+        elif f == 'get_status_str':
+            o.get_status(format=str)
+        elif f == 'info':
+            o.info(verbose=3)
+        elif f == 'len':
+            len(o)
+        elif f == 'bool':
+            bool(o)
+        elif f == 'int':
+            int(o)
+        elif f == 'float':
+            float(o)
+        elif f == 'eq_self':
+            o == o
+        elif f == 'lt_const':
+            o < 1.5
+        elif f == 'ne_const':
+            o != 0
+        elif f == 'argmax':
+            o.argmax()
+        elif f == 'argmin':
+            o.argmin()
+        elif f == 'all':
+            o.all()
+        elif f == 'any':
+            o.any()
+        elif f == 'nonzero':
+            o.nonzero()
+        elif f == 'item':
+            o.item(0) if arr else o.item()
+        elif f == 'np_asarray':
+            np.asarray(o)
+        elif f == 'get_dtype':
+            o.get_dtype()
+        elif f == 'attrs':
+            (o.dtype, o.shape, o.ndim, o.size, o.upper, o.lower, o.precision, o.n_int, o.overflow, o.rounding,
+             o.shifting)
+        elif f == 'real_imag':
+            (o.real, o.imag)
+        elif f == 'iter':
+            if arr:
+                for i in range(len(o)):
+                    o[i]
 
     # shallow routes: generated only by the C02 profile (C20 does not list them as independent)
     def op_shallow(self, st):
